@@ -18,7 +18,9 @@ THEOREMS = [
     "GoaktVerif.C06.C06_overlap_external",
     "GoaktVerif.C06.C06_recv_after_poststop_external",
     "GoaktVerif.C06.C06_late_passivation_once",
-    "GoaktVerif.C06.C06_prestart_overlap_restart",
+    "GoaktVerif.C06.C06_restart_enters_window_only_idle",
+    "GoaktVerif.C06.C06_restart_of_scheduled_actor_waits",
+    "GoaktVerif.C06.C06_prestart_overlap_stale_tell",
     "GoaktVerif.C06.C06_refuted",
     "GoaktVerif.C06.C06_partial",
     "GoaktVerif.C06.C06_pill_path",
@@ -27,8 +29,8 @@ INPKG = ["actor/zz_verif_c06.go"]
 HARNESS = "c06"
 TIMEOUT = 1500
 MANIFEST = {
-    "level_text": "Kernel-checked theorems over a small-step model of actor/pid.go's lifecycle (Shutdown/doStop/reset, tryPassivation, restartSubtree, Tell/doReceive, the turn loop with in-turn PoisonPill handling) for ANY number of senders, stoppers, passivation attempts and restarts and ANY schedule: the full property is refuted with machine-checked witnesses for clauses 4, 3 and 1 (C06_refuted, C06_overlap_external, C06_recv_after_poststop_external, C06_prestart_overlap_restart; the clause-2 defect C06-F2 was fixed by 6f92e10 and is now the regression theorem C06_late_passivation_once); the four clauses are proved for every schedule of the PoisonPill path (C06_pill_path) and for every schedule in which the actor's turn, external stop critical sections and restart windows do not overlap (C06_partial, inductive invariant inv_step). Every witness is replayed deterministically on the real actor system (hooks parked at harness gates, no sleeps) and the same spec monitor judges the recorded hook history per stop path.",
-    "level_note": "Partial: the property is false of the current code for every stop entered from outside the actor's own turn (findings C06-F1, C06-F3; C06-F2 fixed). The dispatch turn is abstract (one turn at a time = C01, no lost wake-up = C02 are assumed); children/watchers, failing handlers and ctx.Shutdown() inside the handler are not in the model (the latter is still judged on the implementation). The tie is a scenario differential at gate granularity (PreStart/Receive/PostStop entry, stopLocker blocking observed one-sidedly within a bounded window), not an instruction-level one; cases the prompt reading makes racy are judged by the monitor only.",
+    "level_text": "Kernel-checked theorems over a small-step model of actor/pid.go's lifecycle (Shutdown/doStop/reset, tryPassivation, restartSubtree, Tell/doReceive, the turn loop with in-turn PoisonPill handling) for ANY number of senders, stoppers, passivation attempts and restarts and ANY schedule: the full property is refuted with machine-checked witnesses (C06_refuted, C06_overlap_external, C06_recv_after_poststop_external; clause 1 only through a stale Tell: C06_prestart_overlap_stale_tell; the restart-of-a-Scheduled-actor defect C06-F3 was fixed by 4b1d5a5: C06_restart_enters_window_only_idle, C06_restart_of_scheduled_actor_waits; the clause-2 defect C06-F2 was fixed by 6f92e10 and is now the regression theorem C06_late_passivation_once); the four clauses are proved for every schedule of the PoisonPill path (C06_pill_path) and for every schedule in which the actor's turn, external stop critical sections and restart windows do not overlap (C06_partial, inductive invariant inv_step). Every witness is replayed deterministically on the real actor system (hooks parked at harness gates, no sleeps) and the same spec monitor judges the recorded hook history per stop path.",
+    "level_note": "Partial: the property is false of the current code for every stop entered from outside the actor's own turn (finding C06-F1; C06-F2 and C06-F3 fixed). The dispatch turn is abstract (one turn at a time = C01, no lost wake-up = C02 are assumed); children/watchers, failing handlers and ctx.Shutdown() inside the handler are not in the model (the latter is still judged on the implementation). The tie is a scenario differential at gate granularity (PreStart/Receive/PostStop entry, stopLocker blocking observed one-sidedly within a bounded window), not an instruction-level one; cases the prompt reading makes racy are judged by the monitor only.",
     "technique": "Lean 4 inductive invariant over an interleaving model + deterministic gated-scenario differential against the real actor system + spec monitor on recorded hook histories",
 }
 TRUSTED = [
@@ -268,26 +270,6 @@ def oracle(case, impl, judge):
     return None if v.startswith("ok") else v
 
 
-def _accepted_during_prestart(case, impl):
-    """a Tell was ACCEPTED while a restart was parked inside PreStart: that is not finding C06-F3
-    (whose Receive comes from a backlog queued before the restart), it is a new defect"""
-    sp = _split(_gid.sub("", impl or ""))
-    if sp is None:
-        return False
-    ops = case.partition("|")[2].split()
-    gs, parked = False, False
-    for op, r in zip(ops, sp[0]):
-        if op == "g+s":
-            gs = True
-        elif op == "g-s":
-            gs, parked = False, False
-        elif op == "restart" and r == "parked" and gs:
-            parked = True
-        elif op in ("t", "pill", "self") and r == "ok" and parked and gs:
-            return True
-    return False
-
-
 def classify(case, impl, why):
     """exact signature per stop path: `c<k>:<stop paths of the incarnation, last = the PostStop involved>`"""
     if not why or not why.startswith("bad c"):
@@ -303,8 +285,6 @@ def classify(case, impl, why):
             found.append("C06-F1")
         elif clause == "3" and last in EXTERNAL:
             found.append("C06-F1")
-        elif clause == "1" and last == "restart" and not _accepted_during_prestart(case, impl):
-            found.append("C06-F3")
         else:
             return None
     return found[0] if found else None
